@@ -86,6 +86,7 @@ type VC struct {
 	params []types.Object
 	origins map[int]originRec
 	preserved []preservedObj
+	tailDup bool
 	strKeys map[int]*Term // content key of strings built by concatenation (by array-id term)
 	inlineMode bool
 	retCount int
@@ -156,7 +157,40 @@ func (vc *VC) oblige(st *State, kind string, n ast.Node, anchor string, goal *Te
 	if n != nil {
 		pos = n.Pos()
 	}
-	o := &Oblig{Name: vc.oblName(kind, n, anchor), Kind: kind, Unit: vc.unit, Pos: pos, NLog: len(vc.log), PC: st.pc, Goal: goal, vc: vc}
+	name := vc.oblName(kind, n, anchor)
+	// a conjunction of several quantified facts (typically a struct equality under a forall, distributed per
+	// component) is discharged conjunct by conjunct: one small query each instead of one large one
+	if splitQuantGoals && goal.Op == "and" && len(goal.Args) > 3 {
+		nq := 0
+		for _, a := range goal.Args {
+			if hasQuant(a) {
+				nq++
+			}
+		}
+		if nq > 3 {
+			var first *Oblig
+			var rest []*Term
+			qi := 0
+			for _, a := range goal.Args {
+				if !hasQuant(a) {
+					rest = append(rest, a)
+					continue
+				}
+				qi++
+				o := &Oblig{Name: fmt.Sprintf("%s/part%d", name, qi), Kind: kind, Unit: vc.unit, Pos: pos, NLog: len(vc.log), PC: st.pc, Goal: a, vc: vc}
+				vc.obls = append(vc.obls, o)
+				if first == nil {
+					first = o
+				}
+			}
+			if len(rest) > 0 {
+				o := &Oblig{Name: name + "/rest", Kind: kind, Unit: vc.unit, Pos: pos, NLog: len(vc.log), PC: st.pc, Goal: And(rest...), vc: vc}
+				vc.obls = append(vc.obls, o)
+			}
+			return first
+		}
+	}
+	o := &Oblig{Name: name, Kind: kind, Unit: vc.unit, Pos: pos, NLog: len(vc.log), PC: st.pc, Goal: goal, vc: vc}
 	vc.obls = append(vc.obls, o)
 	return o
 }
@@ -338,7 +372,11 @@ func (vc *VC) loadElem(st *State, elem types.Type, arr, idx *Term) Val {
 		c[i] = Select(Select(h, arr), idx)
 		vc.typingFact(c[i], elem, cp, i)
 	}
-	return Val{T: elem, C: c}
+	v := Val{T: elem, C: c}
+	if k := kindOf(elem); k == KStruct || k == KSlice || k == KString {
+		vc.typingVal(v) // memory is well typed: 0 <= len <= cap etc. hold for every stored slice header
+	}
+	return v
 }
 
 func (vc *VC) loadComps(st *State, elem types.Type, arr, idx *Term, lo, hi int, ft types.Type) Val {
@@ -599,15 +637,30 @@ func loopHeader(fset *token.FileSet, s ast.Stmt) string {
 
 // assignedIn collects objects assigned in a statement subtree and whether heaps may be written.
 type modInfo struct {
+	fields    map[types.Object]map[string]bool // struct locals of which only some fields are assigned
 	objs      map[types.Object]bool
 	heapWrite bool // any store through index/field/pointer or call
 	calls     []*ast.CallExpr
 }
 
 func (vc *VC) modSet(n ast.Node) *modInfo {
-	mi := &modInfo{objs: map[types.Object]bool{}}
+	mi := &modInfo{objs: map[types.Object]bool{}, fields: map[types.Object]map[string]bool{}}
 	var lhs func(e ast.Expr)
 	lhs = func(e ast.Expr) {
+		// x.f = ... on a local struct variable: only field f changes
+		if se, ok := e.(*ast.SelectorExpr); ok {
+			if id, ok := unparen(se.X).(*ast.Ident); ok {
+				if o, ok := vc.info.ObjectOf(id).(*types.Var); ok && kindOf(o.Type()) == KStruct {
+					if sel := vc.info.Selections[se]; sel != nil && sel.Kind() == types.FieldVal && len(sel.Index()) == 1 {
+						if mi.fields[o] == nil {
+							mi.fields[o] = map[string]bool{}
+						}
+						mi.fields[o][se.Sel.Name] = true
+						return
+					}
+				}
+			}
+		}
 		switch x := e.(type) {
 		case *ast.Ident:
 			if o := vc.info.ObjectOf(x); o != nil {
@@ -706,3 +759,5 @@ type preservedObj struct {
 	arr  *Term
 	idx  *Term
 }
+
+var splitQuantGoals = false
